@@ -191,7 +191,12 @@ func main() {
 		}
 	}
 
-	out := &faultWriter{w: bufio.NewWriterSize(os.Stdout, 1<<16)}
+	// git writes the object listing of rev-list through stdio: blocks of 4096 bytes on a pipe
+	bufSize := 1 << 16
+	if name == "rev-list" {
+		bufSize = 4096
+	}
+	out := &faultWriter{w: bufio.NewWriterSize(os.Stdout, bufSize)}
 	for _, f := range sc.Faults {
 		if f.Invocation == name && (f.Nth == 0 || f.Nth == nth) {
 			out.armed = true
